@@ -84,6 +84,9 @@ def check_archive(path: str, job: dict, outputs: dict, job_dir: str):
                     probs.append(("file:sha1", f"{i}: recorded sha1 {byid[i]['sha1']} != content"))
                 if "contentSize" in byid[i] and int(byid[i]["contentSize"]) != len(data):
                     probs.append(("file:size", f"{i}: recorded size {byid[i]['contentSize']} != {len(data)}"))
+    for nm in names:
+        if nm not in ("ro-crate-metadata.json", "ro-crate-preview.html") and nm not in byid:
+            probs.append(("archive:undescribed-member", f"{nm} is in the archive but no entity describes it"))
     # inputs / outputs of the run
     main_id = (root or {}).get("mainEntity", {}).get("@id")
     actions = [e for e in g if "CreateAction" in _types(e) and e.get("instrument", {}).get("@id") == main_id]
